@@ -180,11 +180,44 @@ func verifPlain(n JsonNode) interface{} {
 	if isVoid(n) {
 		return verifAbsent{}
 	}
-	var v interface{}
-	if err := json.Unmarshal([]byte(n.Json()), &v); err != nil {
+	return verifPlainOf(n)
+}
+
+// verifPlainOf converts structurally (not through the library's own renderer, which is under test).
+func verifPlainOf(n JsonNode) interface{} {
+	switch v := n.(type) {
+	case jsonObject:
+		out := map[string]interface{}{}
+		for k, e := range v {
+			out[k] = verifPlainOf(e)
+		}
+		return out
+	case jsonArray:
+		out := make([]interface{}, len(v))
+		for i, e := range v {
+			out[i] = verifPlainOf(e)
+		}
+		return out
+	case jsonList:
+		return verifPlainOf(jsonArray(v))
+	case jsonSet:
+		return verifPlainOf(jsonArray(v))
+	case jsonMultiset:
+		return verifPlainOf(jsonArray(v))
+	case jsonString:
+		return string(v)
+	case jsonNumber:
+		return float64(v)
+	case jsonBool:
+		return bool(v)
+	case jsonNull:
+		return nil
+	}
+	var x interface{}
+	if err := json.Unmarshal([]byte(n.Json()), &x); err != nil {
 		panic("verifPlain: " + err.Error())
 	}
-	return v
+	return x
 }
 
 // verifAbsent marks the empty document.
